@@ -698,82 +698,100 @@ func c05ReaderCompleteness(r *Run) {
 			r.Undecided("C05.R6", rd.name+" signature", r.Prog.Pos(fn.Pos()), shortFunc(fn), "no replica-set parameter")
 			continue
 		}
-		paths, _, ok := funcPaths(fn, 5000)
-		r.paths += len(paths)
-		if !ok {
-			r.Undecided("C05.R6", rd.name+" table", r.Prog.Pos(fn.Pos()), shortFunc(fn), "path cap exceeded")
+		// alternatives (with helper predicates expanded) under which the reader answers yes / no
+		yes := boolAlts(r.Prog, fn, rd.idx, true, nil, 0)
+		no := boolAlts(r.Prog, fn, rd.idx, false, nil, 0)
+		if yes == nil && no == nil {
+			r.Undecided("C05.R6", rd.name+" table", r.Prog.Pos(fn.Pos()), shortFunc(fn), "the reader's paths cannot be enumerated")
 			continue
 		}
-		isCondTrue := func(v ssa.Value) bool {
+		r.paths += len(yes) + len(no)
+		constE := func(v ssa.Value, env *envT) (string, bool) {
+			x, _ := stripConvE(v, env)
+			return constString(x)
+		}
+		isCondTrueE := func(v ssa.Value, env *envT) bool {
 			c, okc := isCallTo(v, pkgERSCond+".IsConditionTrue")
 			if !okc {
 				return false
 			}
-			root, p := accessPath(c.Call.Args[0])
-			s, oks := constString(c.Call.Args[1])
-			return root == ssa.Value(ers) && len(p) == 1 && p[0] == "Status" && oks && s == condVal
+			s, oks := constE(c.Call.Args[1], env)
+			return oks && s == condVal && rootedAtE(c.Call.Args[0], env, ers, "Status")
 		}
-		lookupOK := func(v ssa.Value, want int) bool { // extract #want of ann[annVal],ok
-			e, isE := v.(*ssa.Extract)
-			if !isE || e.Index != want {
+		lookupE := func(v ssa.Value, env *envT, want int) bool { // extract #want of ann[annVal],ok (want<0: plain lookup)
+			x, e := stripConvE(v, env)
+			var l *ssa.Lookup
+			if ex, isE := x.(*ssa.Extract); isE {
+				if want < 0 || ex.Index != want {
+					return false
+				}
+				l, _ = ex.Tuple.(*ssa.Lookup)
+			} else if want <= 0 {
+				l, _ = x.(*ssa.Lookup)
+				if l != nil && l.CommaOk {
+					l = nil
+				}
+			}
+			if l == nil || ann == nil || !isValE(l.X, e, ann) {
 				return false
 			}
-			l, isL := e.Tuple.(*ssa.Lookup)
-			if !isL || ann == nil || unwrap(l.X) != ssa.Value(ann) {
-				return false
-			}
-			s, oks := constString(l.Index)
+			s, oks := constE(l.Index, e)
 			return oks && s == annVal
 		}
-		plainLookup := func(v ssa.Value) bool {
-			l, isL := v.(*ssa.Lookup)
-			if !isL || l.CommaOk || ann == nil || unwrap(l.X) != ssa.Value(ann) {
+		annIsTrue := func(v ssa.Value, env *envT) bool {
+			x, y, okq := eqOperands(v)
+			if !okq {
 				return false
 			}
-			s, oks := constString(l.Index)
-			return oks && s == annVal
+			cx, okx := constE(x, env)
+			cy, oky := constE(y, env)
+			return oky && cy == trueVal && lookupE(x, env, 0) || okx && cx == trueVal && lookupE(y, env, 0)
 		}
-		nTrue := 0
-		for _, p := range paths {
-			ret := returnOf(p.Blocks[len(p.Blocks)-1])
-			res := p.Resolve(ret.Results[rd.idx])
-			pos := r.Prog.Pos(instrPos(ret))
-			b, isConst := constBool(res)
-			construct := fmt.Sprintf("%s returns %s on path [%s]", rd.name, res.Name(), shortFacts(p))
-			if !isConst {
-				// returning the condition test itself is fine for the failed reader
-				if isCondTrue(res) {
-					r.Check("C05.R6", construct, pos, shortFunc(fn), "result is the replica-set condition test", true, "")
-					nTrue++
+		has := func(alt []xfact, pol bool, m func(v ssa.Value, env *envT) bool) bool {
+			for _, f := range alt {
+				if f.Pol != pol {
 					continue
 				}
-				r.Undecided("C05.R6", construct, pos, shortFunc(fn), "result is not a constant on this path")
-				continue
-			}
-			if b {
-				nTrue++
-				// "true only if" direction: some source says yes
-				src := p.Has(true, func(v ssa.Value, _ string) bool { return isCondTrue(v) })
-				if rd.annKey != "" {
-					src = src || p.Has(true, func(v ssa.Value, _ string) bool {
-						return isEqCompare(v, func(x ssa.Value) bool { return lookupOK(x, 0) || plainLookup(x) }, isConstStringVal(trueVal))
-					})
+				v, e := derefE(r.Prog, f.V, f.env)
+				if m(v, e) {
+					return true
 				}
-				r.Check("C05.R6", construct, pos, shortFunc(fn), "answers yes only when the replica-set condition is true or the annotation equals \"true\"", src, "path facts: "+shortFacts(p))
-				continue
 			}
-			condNo := p.Has(true, func(v ssa.Value, _ string) bool { return isNilCompareOf(v, isParam(ers)) }) ||
-				p.Has(false, func(v ssa.Value, _ string) bool { return isCondTrue(v) })
+			return false
+		}
+		describe := func(alt []xfact) string {
+			var fs []Fact
+			for _, f := range alt {
+				fs = append(fs, f.Fact)
+			}
+			p := &Path{Facts: factSet{}}
+			for _, f := range fs {
+				p.Facts[fkey(f)] = f
+			}
+			return shortFacts(p)
+		}
+		nTrue := len(yes)
+		pos := r.Prog.Pos(fn.Pos())
+		for _, alt := range yes {
+			src := has(alt, true, isCondTrueE)
+			if rd.annKey != "" {
+				src = src || has(alt, true, annIsTrue)
+			}
+			r.Check("C05.R6", rd.name+" answers yes on ["+describe(alt)+"]", pos, shortFunc(fn),
+				"answers yes only when the replica-set condition is true or the annotation equals \"true\"", src, "facts: "+describe(alt))
+		}
+		for _, alt := range no {
+			condNo := has(alt, false, isCondTrueE) || has(alt, true, func(v ssa.Value, env *envT) bool {
+				x, y, okq := eqOperands(v)
+				return okq && (isNilConst(y) && isValE(x, env, ers) || isNilConst(x) && isValE(y, env, ers))
+			})
 			annNo := true
 			if rd.annKey != "" {
-				annNo = p.Has(false, func(v ssa.Value, _ string) bool { return lookupOK(v, 1) }) ||
-					p.Has(false, func(v ssa.Value, _ string) bool {
-						return isEqCompare(v, func(x ssa.Value) bool { return lookupOK(x, 0) || plainLookup(x) }, isConstStringVal(trueVal))
-					})
+				annNo = has(alt, false, func(v ssa.Value, env *envT) bool { return lookupE(v, env, 1) }) || has(alt, false, annIsTrue)
 			}
-			r.Check("C05.R6", construct, pos, shortFunc(fn),
+			r.Check("C05.R6", rd.name+" answers no on ["+describe(alt)+"]", pos, shortFunc(fn),
 				"answers no only when the replica-set condition is not true and (for paused) the annotation is absent or not \"true\"", condNo && annNo,
-				fmt.Sprintf("condition source excluded=%v annotation source excluded=%v; path facts: %s", condNo, annNo, shortFacts(p)))
+				fmt.Sprintf("condition source excluded=%v annotation source excluded=%v; facts: %s", condNo, annNo, describe(alt)))
 		}
 		if nTrue == 0 {
 			r.Check("C05.R6", rd.name+" can answer yes", r.Prog.Pos(fn.Pos()), shortFunc(fn), "the reader has a path answering yes", false, "no path returns true")
